@@ -33,6 +33,8 @@ CLAIMS = {
          'Fault-free semantics (deletions that fail are covered under C04).'),
  'C16': ('proof', 'C16_varint_u64 / C16_varint_i64 (all usize / i64 values), C16_roundtrip (bidiff Translator+Writer then bipatch Reader reproduce new for ANY well-formed match list, all sizes < 2^63), C16_hash_gate, C16_end_to_end (library installs what the tool built, given a lossless compressor). Correspondence per (base,new) pair: the tool\'s real patch installs through the library and the artifact equals new; the model writer\'s bytes equal the real bidiff stream; wf_matches holds on the matches bidiff emits; model reader on the real stream gives new.',
          'zstd round trip is a hypothesis of C16_end_to_end; the suffix-array matcher is only required to emit well-formed matches (checked on every generated pair, not proved); the chunked Reader is modelled by its one-shot semantics (chunk independence exercised by sizes crossing 4096/8192/65536, not proved).'),
+ 'C11': ('proof', 'Calls are programs of critical sections (Blocks.v); C11_update_is_its_blocks / C11_check_is_its_blocks (refinement to the sequential calls); for EVERY number of threads, call lists and schedules: C11_any_schedule_safe (release-stable disk + I-ban), C11_banned_stays_banned, C11_install_block_respects_ban, C11_query_intact, C11_last_good_survives. Correspondence: real threads under a scheduler that decides every acquisition of the config mutex and every update try_lock (verif-hooks sync points) vs the model executing the same block order.',
+         'Interleavings at lock-acquisition granularity: all shared state is guarded by the config mutex; network callbacks run unlocked on thread-local data. Memory-model effects below that granularity are outside the model.'),
 }
 NA = {}
 def main():
@@ -59,7 +61,7 @@ def main():
             'guard': 'verif-hooks',
             'enable': 'cargo feature verif-hooks on the updater crate (harness/Cargo.toml: updater = { path = "/repo/library", features = ["verif-hooks"] })',
             'baseline_off_cmd': 'cd /repo && cargo test --workspace --no-fail-fast --offline',
-            'source_commits': ['ce3fd0d'],
+            'source_commits': ['ce3fd0d', 'd7b058d'],
             'add_only': True,
         },
         'engines': [{'name': 'coq-model+uvh', 'path': 'coq/ harness/ tools/', 'serves_properties': sorted(CLAIMS),
